@@ -258,6 +258,7 @@ fn run_one(tier: Tier, i: u64, seed: u64, c: &mut Counters, known: &std::collect
                     order: q.order.clone(),
                     threads: vec![vec![Tx { runner: Runner::WithErr, ops: q.ops.clone(), f1: vec![], f2: vec![], f1_attempt: 0 }], noise.clone()],
                     f2: vec![],
+                    pre: vec![],
                 });
                 for _ in 0..2 {
                     let spec = draw_sched(&mut rng, 2, 400);
@@ -375,6 +376,7 @@ fn reproduces(p: &Payload) -> Option<(String, String)> {
                 order: q.order.clone(),
                 threads: vec![vec![Tx { runner: Runner::WithErr, ops: q.ops.clone(), f1: vec![], f2: vec![], f1_attempt: 0 }], p.noise.clone()],
                 f2: vec![],
+                pre: vec![],
             });
             let rr = run_concurrent(scn, p.sched.clone()?, 2_000_000);
             let Outcome::Done(co) = rr.outcome else { return None };
